@@ -971,6 +971,7 @@ func (f *fsm) established() (fsmState, error) {
 	}
 
 	to, err := established()
+	<-kaManagerDoneCh
 	f.cleanupConnAndReader()
 	f.holdTimer.Stop()
 	f.keepAliveTimer.Stop()
